@@ -13,6 +13,7 @@ import (
 
 	"github.com/NethermindEth/juno/consensus/propeller"
 	"github.com/NethermindEth/juno/consensus/propeller/merkle"
+	"github.com/NethermindEth/juno/consensus/propeller/reedsolomon"
 	"github.com/libp2p/go-libp2p/core/peer"
 )
 
@@ -327,9 +328,9 @@ func validatorChecks(c *caseCtx, rng *rand.Rand, cr *created, ids []peer.ID, pub
 	}
 	_, outsider := genKey(rng)
 	// a second message of the same publisher under the same (committee, nonce): source of transplants
-	other := &created{cfg: cr.cfg, root: cr.root}
+	msg2 := randBytes(rng, max(1, cr.cfg.MsgLen))
+	other := &created{cfg: cr.cfg}
 	{
-		msg2 := randBytes(rng, max(1, cr.cfg.MsgLen))
 		var u2 []propeller.Unit
 		var e2 error
 		if p := safe(func() { u2, e2 = propeller.CreatePropellerUnits(cr.priv, &cr.cid, cr.nonce, msg2, cr.cfg.D, cr.cfg.P) }); p != nil || e2 != nil || len(u2) != total {
@@ -346,6 +347,66 @@ func validatorChecks(c *caseCtx, rng *rand.Rand, cr *created, ids []peer.ID, pub
 	}
 	env := &corruptEnv{rng: rng, cr: cr, other: other, ref: ref, local: local, members: ids, outsider: outsider,
 		total: total, proofLen: len(cr.fixed[0].MerkleProof.Siblings), publisher: publisher}
+	if validatorSuite(c, env, sch, "created") {
+		return
+	}
+	// The validator refuses what the publisher creates (reported above). So that the rest of
+	// Validate (duplicates, signature stage, state after a rejection) is not left unobserved,
+	// judge it on units the harness assembles from Juno's exported building blocks
+	// (PadMessage, reedsolomon.EncodeData, merkle.New, SignMessage) with the OTHER leaf encoding.
+	for _, enc := range []string{"proto", "raw"} {
+		if enc == cr.pubEnc {
+			continue
+		}
+		alt, ok1 := assemble(cr, cr.msg, enc)
+		altOther, ok2 := assemble(cr, msg2, enc)
+		if !ok1 || !ok2 || alt.root == altOther.root {
+			r.Count("validator_dialect_suites_not_built", 1)
+			continue
+		}
+		r.Count("validator_dialect_suites(harness-assembled units, "+enc+" leaves)", 1)
+		env2 := *env
+		env2.cr, env2.other, env2.proofLen = alt, altOther, len(alt.fixed[0].MerkleProof.Siblings)
+		validatorSuite(c, &env2, sch, "harness-assembled-"+enc+"-leaf")
+	}
+}
+
+// assemble builds the unit set of msg the way CreatePropellerUnits does, from the exported
+// building blocks, with the given leaf encoding and the nonce carried in the unit.
+func assemble(cr *created, msg []byte, enc string) (*created, bool) {
+	d, p := cr.cfg.D, cr.cfg.P
+	out := &created{cfg: cr.cfg, priv: cr.priv, pubID: cr.pubID, cid: cr.cid, nonce: cr.nonce, msg: msg, pubEnc: enc}
+	ok := false
+	safe(func() {
+		shards, err := reedsolomon.EncodeData(propeller.PadMessage(msg, d), d, p)
+		if err != nil {
+			return
+		}
+		leaves := make([][]byte, len(shards))
+		for i := range shards {
+			leaves[i] = leafOf(enc, propeller.ShardData{shards[i]})
+		}
+		root, tree := merkle.New(leaves)
+		out.root = propeller.MessageRoot(root)
+		sig, err := propeller.SignMessage(cr.priv, &out.root, &out.cid, cr.nonce)
+		if err != nil || len(tree) != len(shards) {
+			return
+		}
+		for i := range shards {
+			out.fixed = append(out.fixed, propeller.Unit{CommitteeID: cr.cid, Publisher: cr.pubID, MessageRoot: out.root, MerkleProof: tree[i],
+				Signature: append(propeller.Signature(nil), sig...), ShardIndex: propeller.ShardIndex(i), ShardData: propeller.ShardData{shards[i]}, Nonce: cr.nonce})
+		}
+		out.units = out.fixed
+		ok = len(out.fixed) == d+p
+	})
+	return out, ok
+}
+
+// validatorSuite runs pristine / duplicate / corrupted units of env.cr through
+// Validate. Returns whether the validator accepted every pristine unit ("live").
+func validatorSuite(c *caseCtx, env *corruptEnv, sch *propeller.Scheduler, label string) bool {
+	r, rng, cr, ref, local, ids, publisher, total := c.r, env.rng, env.cr, env.ref, env.local, env.members, env.publisher, env.total
+	created := label == "created"
 
 	// --- 1. pristine units, each from its legitimate sender, through one pipeline (one validator)
 	pl := newPipeline(sch)
@@ -355,9 +416,9 @@ func validatorChecks(c *caseCtx, rng *rand.Rand, cr *created, ids []peer.ID, pub
 		sender := ref.legitSender(local, publisher, uint32(i))
 		st := primitives(sch, cr.pubEnc, &u, sender)
 		r.Eval(2)
-		r.Count("pristine_units_validated", 1)
+		r.Count(label+"_units_validated", 1)
 		if sender == publisher {
-			r.Count("pristine_units_direct_from_publisher", 1)
+			r.Count(label+"_units_direct_from_publisher", 1)
 		}
 		w := map[string]any{"unit": i, "units": total, "committee_size": len(ids), "sender_is_publisher": sender == publisher,
 			"stage_origin_ok": st.origin, "stage_proof_ok(publisher leaf encoding " + cr.pubEnc + ")": st.proof, "stage_signature_ok": st.sig}
@@ -382,11 +443,11 @@ func validatorChecks(c *caseCtx, rng *rand.Rand, cr *created, ids []peer.ID, pub
 			continue
 		}
 		if d.accepted {
-			r.Count("pristine_units_accepted_by_validator", 1)
+			r.Count(label+"_units_accepted_by_validator", 1)
 			continue
 		}
 		live = false
-		r.Count("pristine_units_rejected_by_validator", 1)
+		r.Count(label+"_units_rejected_by_validator", 1)
 		w["validate_error"] = fmt.Sprint(d.err)
 		// classify by the shape of the witness, not by the error text
 		otherEnc := "proto"
@@ -408,14 +469,19 @@ func validatorChecks(c *caseCtx, rng *rand.Rand, cr *created, ids []peer.ID, pub
 		case !st.sig:
 			reason = "signature"
 		}
+		if !created {
+			c.viol("validator-rejects-"+label+"-unit:"+reason,
+				fmt.Sprintf("unit %d/%d assembled from PadMessage/EncodeData/merkle.New/SignMessage with %s leaves is rejected by Validate as well: %v", i, total, cr.pubEnc, d.err), w)
+			continue
+		}
 		c.viol("created-unit-rejected-by-validator:"+reason,
 			fmt.Sprintf("unit %d/%d produced by CreatePropellerUnits (Nonce set to the signed nonce) is rejected by UnitValidator.Validate from its legitimate sender: %v "+
 				"[origin ok=%v, proof vs signed root with %s leaf ok=%v / with %s leaf ok=%v, signature ok=%v]", i, total, d.err, st.origin, cr.pubEnc, st.proof, otherEnc, otherEncOK, st.sig), w)
 	}
 	if live {
-		r.Count("committee_cases_validator_live", 1)
+		r.Count("validator_live_suites/"+label, 1)
 	} else {
-		r.Count("committee_cases_validator_rejects_pristine_units(corruption verdicts of Validate vacuous except origin stage)", 1)
+		r.Count("validator_rejecting_pristine_units_suites/"+label+"(corruption verdicts of Validate vacuous except origin stage)", 1)
 	}
 
 	// --- 2. duplicates (only meaningful when the first copy was accepted)
@@ -527,4 +593,5 @@ func validatorChecks(c *caseCtx, rng *rand.Rand, cr *created, ids []peer.ID, pub
 			}
 		}
 	}
+	return live
 }
